@@ -48,6 +48,7 @@ PROPS = {
                 "recorded ones, decreasing and repeated, clock readings before / at / after the receive time; kernel transmit timestamps present, equal to or earlier than the receive time, or missing; "
                 "non-trivial = at least 4 requests served; distinct = distinct event-log hash",
         "components": {"real": ["core/server handleRequest, updateTXTimestamp, tssQueue (container/heap)", "net/ntp Time64"],
+                       "thorough_tier_extra": "run 0 of a thorough batch drives the store at the code's own capacity: 2^20 + 50000 distinct clients, asserting the statement's 2^20, eviction of the oldest and stateless service of older requests",
                        "stub": dict(STUBS_COMMON, **{"listeners": "simulated callers (this check drives the two functions directly; the listeners themselves run in C03/C09)",
                                                      "sync.Mutex in server.go": "simsync.Mutex (parks in the scheduler)"})},
         "assumptions": ["store capacity is lowered through a variable that replaces the uses of the constant tssCap at build time; the statement's 2^20 itself is only asserted by the thorough tier's capacity run",
@@ -65,6 +66,7 @@ PROPS = {
                 "recorded ones, decreasing and repeated, clock readings before / at / after the receive time; kernel transmit timestamps present, equal to or earlier than the receive time, or missing; "
                 "non-trivial = at least 4 requests served; distinct = distinct event-log hash",
         "components": {"real": ["core/server handleRequest, updateTXTimestamp, tssQueue (container/heap)", "net/ntp Time64"],
+                       "thorough_tier_extra": "run 0 of a thorough batch drives the store at the code's own capacity: 2^20 + 50000 distinct clients, asserting the statement's 2^20, eviction of the oldest and stateless service of older requests",
                        "stub": dict(STUBS_COMMON, **{"listeners": "simulated callers (this check drives the two functions directly; the listeners themselves run in C03/C09)",
                                                      "sync.Mutex in server.go": "simsync.Mutex (parks in the scheduler)"})},
         "assumptions": ["store capacity is lowered through a variable that replaces the uses of the constant tssCap at build time; the statement's 2^20 itself is only asserted by the thorough tier's capacity run",
@@ -161,8 +163,10 @@ PROPS = {
         "rule": "one run = the real sync.Run loop for 3..50 rounds on a simulated system clock with a recording discipline, 0..7 scripted reference clocks and "
                 "0..7 scripted peers (per call: answer / fail / answer late into later rounds / return on cancellation / ignore cancellation; offsets boundary-dense over int64: "
                 "0, +-1, +-cutoff+-1, +-cap+-k, +-2^62, MinInt64, MaxInt64, random), admissible configurations (boundary impact factors, cutoffs, timeouts 0..interval/2, intervals 1ms..1h) "
-                "and each class of inadmissible one; non-trivial = at least 3 rounds completed or an inadmissible configuration refused; distinct = distinct event-log hash",
-        "required_probes": ["exact-round", "partial-round", "both-groups", "cutoff-suppressed", "clamped-ref", "clamped-peer", "inadmissible-refused"],
+                "and each class of inadmissible one; every 8th run instead wires the whole IP service as timeservice.go does (sync.Run with syncConfig's defaults, 1..4 reference clocks from newNTPReferenceClockIP - real IPClient, "
+                "interleaved mode, Ntimed filter - each against real runIPServer listeners of its own host, with loss, duplication and delay) and checks one correction per round, the reference cap and the timeout; "
+                "non-trivial = at least 3 rounds completed or an inadmissible configuration refused; distinct = distinct event-log hash",
+        "required_probes": ["exact-round", "partial-round", "both-groups", "cutoff-suppressed", "clamped-ref", "clamped-peer", "inadmissible-refused", "wired-round", "wired-nonzero-correction"],
         "components": {"real": ["core/sync Run, measureOffsetToRefClks", "core/client ReferenceClockClient.MeasureClockOffsets, collectMeasurements",
                                 "core/measurements FaultTolerantMidpoint", "base/timemath"],
                        "stub": dict(STUBS_COMMON, **{"reference clocks and peers": "scripted client.ReferenceClock", "discipline": "recording adjustments.Adjustment",
